@@ -579,6 +579,25 @@ func (c *Ctx) ruleGraphsPersist() {
 				r.SawFn(p.ShortFn(f))
 				// value: a fresh graph; dominated by the !ok edge of a lookup of the same key in the same map
 				_, fresh := x.Value.(*ssa.Alloc)
+				var phiLookups []*ssa.Lookup
+				if phi, isPhi := x.Value.(*ssa.Phi); isPhi {
+					// g, ok := b.graphs[t]; if !ok { g = &graph{} } ... if !ok { b.graphs[t] = g }: on the
+					// absent-key side the merged value is the fresh graph
+					fresh = true
+					for _, e := range phi.Edges {
+						switch ev := e.(type) {
+						case *ssa.Alloc:
+						case *ssa.Extract:
+							if lk, ok := ev.Tuple.(*ssa.Lookup); ok && ev.Index == 0 {
+								phiLookups = append(phiLookups, lk)
+							} else {
+								fresh = false
+							}
+						default:
+							fresh = false
+						}
+					}
+				}
 				okDom := false
 				keyS := tb.Of(x.Key).String()
 				for b := in.Block(); b != nil && b.Idom() != nil; b = b.Idom() {
@@ -590,6 +609,11 @@ func (c *Ctx) ruleGraphsPersist() {
 					lk, isLk := ex.Tuple.(*ssa.Lookup)
 					if isLk && tb.Of(lk.X).Is("Field", "graphs") && tb.Of(lk.Index).String() == keyS && edgeDominates(b.Idom(), fsucc, in.Block()) {
 						okDom = true
+						for _, pl := range phiLookups {
+							if pl != lk {
+								okDom = false
+							}
+						}
 					}
 				}
 				r.Check(fresh && okDom, rule, p.ShortFn(f)+":insert", p.InstrPos(in), "Broker.graphs only gains a fresh graph under a key just found absent", "an entry of Broker.graphs may be replaced (not a fresh graph for an absent key): the thresholds stored in the old graph are lost")
@@ -611,7 +635,7 @@ func (c *Ctx) ruleGraphsPersist() {
 
 func runC03(c *Ctx) {
 	p, r := c.P, c.R
-	r.Explanation = "Decides the protocol obligations whose conjunction is the termination / no-leak argument for Send, each a necessary condition: every feasible send on a chan Status is an arm of a blocking select that also receives from the function's ctx.Done(); the collector's only blocking operation is one select over {ctx.Done(), status channel}, it leaves its loop on either ctx.Done() or channel closed, and nothing blocks between that and its return; the traversal's first effect is defer wg.Done(), every start of it is immediately preceded by wg.Add(1) on the same wait group, the channel is closed at exactly one site, after wg.Wait(), after the range; the inventory of blocking instructions reachable from Send inside package eventlogger equals these whitelisted protocol sites; channel and wait group are created per call and stay private to it. Latency bounds and scheduler fairness are not decided. C03.private make-size: no allocation of the package is sized by a value that can be negative. C03.nocopy: no repository function takes, returns or dereference-copies by value a type that contains a sync primitive."
+	r.Explanation = "Decides the protocol obligations whose conjunction is the termination / no-leak argument for Send, each a necessary condition: every feasible send on a chan Status is an arm of a blocking select that also receives from the function's ctx.Done(); the collector's only blocking operation is one select over {ctx.Done(), status channel}, it leaves its loop on either ctx.Done() or channel closed, and nothing blocks between that and its return; the traversal's first effect is defer wg.Done(), every start of it is immediately preceded by wg.Add(1) on the same wait group, the channel is closed at exactly one site, after wg.Wait(), after the range; the inventory of blocking instructions reachable from Send inside package eventlogger equals these whitelisted protocol sites; channel and wait group are created per call and stay private to it. Latency bounds and scheduler fairness are not decided. C03.private make-size: no allocation of the package is sized by a value that can be negative. C03.nocopy: no repository function takes, returns or dereference-copies by value a type that contains a sync primitive. C03.private nil-handle: (*os.File).Name is called on FileSink.f only where the same function found the handle non-nil."
 	r.NotDecided = []string{"latency after cancellation as a number", "scheduler fairness", "panics inside user nodes"}
 	a := c.protoAnchors("C03.anchor")
 	if a == nil {
@@ -625,6 +649,7 @@ func runC03(c *Ctx) {
 	c.rulePrivate(a)
 	c.ruleMakeSizes("C03.private")
 	c.rulePanicSites("C03.private")
+	c.ruleNilHandle("C03.private")
 	// Send's first step is Broker.lock.RLock(), which does not look at the context: a broker call that
 	// invokes an extension point (Close, Reopen) with Broker.lock held lets a node that sends through the
 	// Broker wait for a lock its own caller holds — that Send never returns, and every later Send queues
